@@ -93,6 +93,8 @@ type result struct {
 	Lin        *linCase       `json:"lin,omitempty"`
 	Keys       int            `json:"keys"`
 	KeyNames   []string       `json:"key_names"`
+	Sheets     []string       `json:"sheets"`
+	Pics       []string       `json:"pics,omitempty"` // "goroutine:index sheet!cell image" for every AddPicture, in program order
 	SharedKeys int            `json:"shared_keys"`
 	Millis     int64          `json:"millis"`
 }
@@ -661,7 +663,14 @@ func runOp(f *xl.File, o *op, styleIDs []int) (res opResult) {
 func runScenario(idx int, kind string, seed uint64, tier string) *result {
 	r := newRng(seed)
 	sc := buildScenario(kind, r, tier)
-	res := &result{Idx: idx, Name: kind, Seed: seed, Goroutines: sc.g, Procs: sc.procs, Fns: map[string]int{}, Payloads: map[string]int{}}
+	res := &result{Idx: idx, Name: kind, Seed: seed, Goroutines: sc.g, Procs: sc.procs, Fns: map[string]int{}, Payloads: map[string]int{}, Sheets: sc.sheets}
+	for t := range sc.progs {
+		for i, o := range sc.progs[t] {
+			if o.Kind == "addpic" {
+				res.Pics = append(res.Pics, fmt.Sprintf("%d:%d %s!%s %s", t, i, o.Sheet, o.Cell, o.Img))
+			}
+		}
+	}
 	addFail := func(sig, what string) {
 		if len(res.Fails) < 40 {
 			res.Fails = append(res.Fails, fail{sig, what})
@@ -746,7 +755,11 @@ func runScenario(idx int, kind string, seed uint64, tier string) *result {
 	close(start)
 	done := make(chan struct{})
 	go func() { wg.Wait(); close(done) }()
-	// deadlock watchdog: no operation completes for 20 s while goroutines are still running
+	// deadlock watchdog. A deadlock is not inferred from elapsed time alone: when no operation has
+	// completed for 20 s the goroutine dump is inspected, and only if EVERY goroutine that is
+	// still inside an operation waits in sync.Mutex.Lock is the scenario declared deadlocked (a
+	// slow operation on a loaded machine keeps at least one goroutine runnable). A stall of
+	// 15 minutes with a runnable goroutine is reported separately (never seen).
 	last, lastT := int64(-1), time.Now()
 wait:
 	for {
@@ -757,14 +770,21 @@ wait:
 			if p := atomic.LoadInt64(&progress); p != last {
 				last, lastT = p, time.Now()
 			} else if time.Since(lastT) > 20*time.Second {
-				buf := make([]byte, 1<<20)
-				n := runtime.Stack(buf, true)
-				blocked := strings.Count(string(buf[:n]), "sync.(*Mutex).Lock")
-				addFail("deadlock", fmt.Sprintf("scenario %s seed %d: no operation completed for 20 s (%d of %d operations done, %d goroutines blocked in Mutex.Lock)", kind, seed, p, res.Ops, blocked))
-				_ = os.WriteFile(filepath.Join(os.TempDir(), fmt.Sprintf("c15-deadlock-%d.txt", idx)), buf[:n], 0o644)
-				res.Millis = time.Since(t0).Milliseconds()
-				runtime.GOMAXPROCS(old)
-				return res
+				dump := stackDump()
+				workers, blocked := inLock(dump, "main.runOp(")
+				stalled := time.Since(lastT) > 15*time.Minute
+				if (workers > 0 && blocked == workers) || stalled {
+					sig, why := "deadlock", "every goroutine still inside an operation waits in Mutex.Lock"
+					if blocked != workers {
+						sig, why = "stall", "goroutines are runnable but nothing completes"
+					}
+					addFail(sig, fmt.Sprintf("scenario %s seed %d: no operation completed for %d s, %s (%d of %d operations done, %d goroutines inside an operation, %d of them blocked in Mutex.Lock)",
+						kind, seed, int(time.Since(lastT).Seconds()), why, p, totalOps(sc), workers, blocked))
+					_ = os.WriteFile(filepath.Join(os.TempDir(), fmt.Sprintf("c15-deadlock-%d.txt", idx)), []byte(dump), 0o644)
+					res.Millis = time.Since(t0).Milliseconds()
+					runtime.GOMAXPROCS(old)
+					return res
+				}
 			}
 		}
 	}
@@ -1101,8 +1121,9 @@ wait:
 }
 
 // process-wide watchdog: a deadlock can also strike in the sequential set-up or observation
-// phase of a scenario (a mutex left locked by an earlier call); if nothing beats for 90 s the
-// results so far plus a deadlock failure for the current scenario are written and the process ends.
+// phase of a scenario (a mutex left locked by an earlier call); if nothing beats for 60 s AND the
+// main goroutine waits in Mutex.Lock, the results so far plus a deadlock failure for the current
+// scenario are written and the process ends.
 var (
 	lastBeat   int64
 	curIdx     int64 = -1
@@ -1112,25 +1133,62 @@ var (
 
 func beat() { atomic.StoreInt64(&lastBeat, time.Now().UnixNano()) }
 
+func stackDump() string {
+	buf := make([]byte, 4<<20)
+	return string(buf[:runtime.Stack(buf, true)])
+}
+
+// inLock counts the goroutines whose stack contains marker, and how many of them wait in
+// sync.Mutex.Lock.
+func inLock(dump, marker string) (n, blocked int) {
+	for _, g := range strings.Split(dump, "\n\n") {
+		if !strings.Contains(g, marker) {
+			continue
+		}
+		n++
+		if strings.Contains(g, "sync.(*Mutex).Lock(") || strings.Contains(g, "sync.(*Mutex).lockSlow(") {
+			blocked++
+		}
+	}
+	return
+}
+
+func totalOps(sc *scenario) int {
+	n := 0
+	for _, p := range sc.progs {
+		n += len(p)
+	}
+	return n
+}
+
 func watchdog(out string) {
 	for {
 		time.Sleep(time.Second)
-		if time.Duration(time.Now().UnixNano()-atomic.LoadInt64(&lastBeat)) > 90*time.Second {
-			buf := make([]byte, 1<<20)
-			n := runtime.Stack(buf, true)
-			blocked := strings.Count(string(buf[:n]), "sync.(*Mutex).Lock")
-			k := int(atomic.LoadInt64(&curIdx))
-			resultsMu.Lock()
-			allResults = append(allResults, &result{Idx: k, Name: "watchdog", Fails: []fail{{"deadlock",
-				fmt.Sprintf("scenario %d made no progress for 90 s outside the concurrent phase (%d goroutines blocked in Mutex.Lock): a mutex was left locked", k, blocked)}}})
-			b, _ := json.Marshal(allResults)
-			resultsMu.Unlock()
-			fmt.Fprintf(os.Stderr, "@@ABORT watchdog in scenario %d\n", k)
-			if out != "" {
-				_ = os.WriteFile(out, b, 0o644)
-			}
-			os.Exit(0)
+		idle := time.Duration(time.Now().UnixNano() - atomic.LoadInt64(&lastBeat))
+		if idle < 60*time.Second {
+			continue
 		}
+		// the sequential phases run on the main goroutine: deadlocked only if it waits for a mutex
+		dump := stackDump()
+		_, blocked := inLock(dump, "main.main()")
+		if blocked == 0 && idle < 20*time.Minute {
+			continue
+		}
+		sig, why := "deadlock", "the main goroutine waits in Mutex.Lock: a mutex was left locked"
+		if blocked == 0 {
+			sig, why = "stall", "the main goroutine is runnable but makes no progress"
+		}
+		k := int(atomic.LoadInt64(&curIdx))
+		resultsMu.Lock()
+		allResults = append(allResults, &result{Idx: k, Name: "watchdog", Fails: []fail{{sig,
+			fmt.Sprintf("scenario %d made no progress for %d s in a sequential phase; %s", k, int(idle.Seconds()), why)}}})
+		b, _ := json.Marshal(allResults)
+		resultsMu.Unlock()
+		fmt.Fprintf(os.Stderr, "@@ABORT watchdog in scenario %d\n", k)
+		if out != "" {
+			_ = os.WriteFile(out, b, 0o644)
+		}
+		os.Exit(0)
 	}
 }
 
@@ -1179,7 +1237,7 @@ func main() {
 		results = append(results, res)
 		dead := false
 		for _, f := range res.Fails {
-			if f.Sig == "deadlock" {
+			if f.Sig == "deadlock" || f.Sig == "stall" {
 				dead = true
 			}
 		}
